@@ -3,13 +3,15 @@
 (* Exhaustive exploration of the ZipSender design for small constants:     *)
 (* up to NRec records with sizes from Sizes and times from Times, created  *)
 (* with explicit settings from Choices or with none (defaults), at most    *)
-(* one ApplyConfig, queue path / Append calls / one SendDirect call, a     *)
-(* client that keeps or consumes each pack and may hold the worker, stop   *)
-(* at any moment; every interleaving of producer, worker and direct caller.*)
+(* Reconfig configuration updates, queue path / Append calls / one         *)
+(* SendDirect call, a client that keeps or consumes each pack, a stop      *)
+(* request at any moment; every interleaving of the producer, the worker's *)
+(* steps, the direct caller, the stop request and configuration updates.   *)
+(* A record of size n with id i is the byte string <<i, i, ..., i>>.       *)
 (***************************************************************************)
 EXTENDS ZipSender, TLC
 
-CONSTANTS Modes, NRec, Sizes, Times, MaxBufs, MaxWaits, ZipMins, QCaps, Keeps, Gates, MaxDirect, Reconfig,
+CONSTANTS Modes, NRec, Sizes, Times, MaxBufs, MaxWaits, ZipMins, QCaps, Keeps, MaxDirect, Reconfig,
           EarlyFlush,     \* TRUE: an append may flush although no limit is reached (the property does not forbid it)
           WithDefaults    \* TRUE: creation without settings is explored too
 
@@ -18,38 +20,37 @@ VARIABLE ncfg    \* configuration updates so far (at most Reconfig)
 Choices == {[maxBuf |-> b, maxWait |-> w, zipMin |-> z, qCap |-> q] :
               b \in MaxBufs, w \in MaxWaits, z \in ZipMins, q \in QCaps}
 
+\* configuration updates: every subset of the settings named, values from the choices
+Updates == UNION {[ks -> MaxBufs] : ks \in SUBSET {"maxBuf", "zipMin"}}
+
 NextId == Len(accB) + Len(accD) + Cardinality(refused) + 1
-NewRec(i, sz, t) == [id |-> i, size |-> sz, time |-> t, eh |-> 0]
+NewRec(i, sz, t) == [id |-> i, time |-> t, bytes |-> [j \in 1..sz |-> i]]
 
 \* argument lists of a SendDirect call: 0..MaxDirect fresh records
 MinTime == CHOOSE t \in Times : \A u \in Times : t <= u
 RECURSIVE Batches(_, _)
 Batches(i, n) == IF n = 0 THEN {<<>>}
-                 ELSE {<<>>} \cup {<<NewRec(i, sz, t)>> \o rest :
-                                     sz \in Sizes, t \in {MinTime}, rest \in Batches(i + 1, n - 1)}
+                 ELSE {<<>>} \cup {<<NewRec(i, sz, MinTime)>> \o rest : sz \in Sizes, rest \in Batches(i + 1, n - 1)}
 
-\* the flush decision of an appending step: the design flushes exactly when a limit is reached
-Fl(due) == IF EarlyFlush THEN BOOLEAN ELSE {due}
+\* the flush decision of the appending step: the design flushes exactly when a limit is reached
+AppendDue == LET r == wcur[1] IN MustFlush(blen + Size(r), IF firstTime = 0 THEN r.time ELSE firstTime, r)
+Fl == IF EarlyFlush THEN BOOLEAN ELSE {AppendDue}
 
 MCStep ==
   \/ \E m \in Modes : (WithDefaults /\ New(m, FALSE, Defaults)) \/ \E c \in Choices : New(m, TRUE, c)
   \/ \E sz \in Sizes, t \in Times :
-        NextId <= NRec /\ (Add(NewRec(NextId, sz, t)) \/ AppendBegin(NewRec(NextId, sz, t)))
+        NextId <= NRec /\ (Add(NewRec(NextId, sz, t)) \/ AppendCall(NewRec(NextId, sz, t)))
   \/ \E rs \in Batches(NextId, MaxDirect) : MaxDirect > 0 /\ drid = 0 /\ NextId + Len(rs) <= NRec + 1 /\ DirectBegin(rs)
-  \/ \E k \in Keeps :
-        \/ \E g \in Gates :
-              \/ queue # <<>> /\ \E fl \in Fl(AppendDue(Head(queue))) : Take(k, g, fl)
-              \/ Idle(k, g) \/ Finish(k, g)
-        \/ acall # <<>> /\ \E fl \in Fl(AppendDue(acall[1])) : AppendExec(k, fl)
-        \/ dactive /\ dq # <<>> /\ \E fl \in Fl(DirectDue) : DStep(k, fl)
-        \/ DTail(k)
+  \/ \E saw \in BOOLEAN : WTop(saw, stopped)
+  \/ WTake \/ WIdle \/ WReset \/ WExit
+  \/ wpc = "app" /\ \E fl \in Fl : WAppend(fl)
+  \/ \E k \in Keeps : WSend(k) \/ DSend(k)
   \/ DirectEnd
-  \/ Stop
-  \/ Release
+  \/ StopCall \/ StopRet
 
 MCNext ==
   \/ MCStep /\ UNCHANGED ncfg
-  \/ \E c \in Choices : ncfg < Reconfig /\ c # settings /\ ApplyConfig(c) /\ ncfg' = ncfg + 1
+  \/ \E g \in Updates : ncfg < Reconfig /\ Resolve(g) # settings /\ ApplyConfig(g) /\ ncfg' = ncfg + 1
 
 MCInit == Init /\ ncfg = 0
 MCSpec == MCInit /\ [][MCNext]_<<vars, ncfg>>
